@@ -90,7 +90,10 @@ MCPatternsOf(sd) ==
                                    UCat(ULit(SA), UWCls(TRUE)), URep(UDot, 1, Inf, TRUE), UCls({SA, SLF}, FALSE), UCls({SNUL, SA}, FALSE),
                                    UCat(ULit(SA), UCat(UCls({SCR, SLF, SB}, FALSE), ULit(SB))), UCls({SLF, SCR}, FALSE), UDot,
                                    \* a small byte class with a member above 0x7F between literals (inner literals are bytes, not characters)
-                                   UCat(WPlus, UCat(ULit(SA), UCat(UCls({SFF, SB}, FALSE), UCat(ULit(SB), WPlus))))}}
+                                   UCat(WPlus, UCat(ULit(SA), UCat(UCls({SFF, SB}, FALSE), UCat(ULit(SB), WPlus)))),
+                                   UCat(WPlus, UCat(ULit(SA), UCat(ULit(SB), UCat(UCls({SFF, SB}, FALSE), UCat(ULit(SA), UCat(ULit(SB), WPlus)))))),
+                                   UCat(NWPlus, UCat(UGrp(UAlt(UCat(ULit(SA), UCat(ULit(SB), UCat(UCls({SFF, SUA}, FALSE), UCat(ULit(SA), ULit(SB))))),
+                                                          UCat(ULit(SUB), UCat(ULit(SA), ULit(SUA)))), TRUE), NWPlus))}}
     \* several patterns of which only some hold the raw terminator byte (as fixed strings and as regexes without meta
     \* characters): the set must be rejected, or no match may hold the terminator
     [] sd.fam = "manylf" -> {[sd EXCEPT !.pats = ps, !.fixed = fx] : fx \in BOOLEAN,
